@@ -3,6 +3,7 @@ package checks
 import (
 	"fmt"
 	"go/ast"
+	"go/constant"
 	"go/parser"
 	"go/token"
 	"go/types"
@@ -279,8 +280,48 @@ func c14Shape(o *drive.Outcome, variant int, T types.Type) string {
 		case *ast.CompositeLit:
 			return "the zero value of a basic type is a literal; emitted " + types.ExprString(e)
 		}
+		if T.Underlying().(*types.Basic).Kind() == types.UnsafePointer {
+			if id, ok := e.(*ast.Ident); !ok || id.Name != "nil" {
+				return "the zero value of unsafe.Pointer is nil; emitted " + types.ExprString(e)
+			}
+			break
+		}
+		// value: when Go sees a constant here it must be the zero constant of its kind (0, 0.0, 0i, "", false)
+		if tv, ok := o.Out.Info.Types[e]; ok && tv.Value != nil && !constIsZero(tv.Value) {
+			return "the zero value of a basic type is 0 / \"\" / false; emitted the constant " + tv.Value.ExactString()
+		}
+	case *types.Struct, *types.Array:
+		// value: a composite literal is the zero value only when it has no elements or all of them are themselves zero constants
+		if cl, ok := e.(*ast.CompositeLit); ok {
+			for _, el := range cl.Elts {
+				if kv, ok := el.(*ast.KeyValueExpr); ok {
+					el = kv.Value
+				}
+				tv, ok := o.Out.Info.Types[el]
+				if id, isId := el.(*ast.Ident); isId && id.Name == "nil" {
+					continue
+				}
+				if !ok || tv.Value == nil || !constIsZero(tv.Value) {
+					return "the zero value of a struct / array type has no non-zero element; emitted " + types.ExprString(e)
+				}
+			}
+		}
 	}
 	return ""
+}
+
+func constIsZero(v constant.Value) bool {
+	switch v.Kind() {
+	case constant.Bool:
+		return !constant.BoolVal(v)
+	case constant.String:
+		return constant.StringVal(v) == ""
+	case constant.Int, constant.Float:
+		return constant.Sign(v) == 0
+	case constant.Complex:
+		return constant.Sign(constant.Real(v)) == 0 && constant.Sign(constant.Imag(v)) == 0
+	}
+	return false
 }
 
 var reDefineRHS = regexp.MustCompile(`(?m)^\ty := (.*)$`)
@@ -306,7 +347,7 @@ func init() {
 		ID: "C14", Level: "exploration",
 		Rule: "for random types T of the C13 type algebra (depth 0-3: every basic kind, named types over each kind, pointers, slices, maps, channels, functions, interfaces, arrays, structs, aliases, instantiated generics, types of two fixture packages and std) the zero value is " +
 			"synthesised through the builder API in 5 positions: `var z T = ZeroLit(T)`, `y := ZeroLit(T)`, the zero-argument conversion `y := T()`, ReturnErr padding in a func() (T, error), and an omitted optional parameter of type T; each scenario is its own package, " +
-			"printed and re-checked: Go must accept it, `y` must get exactly type T, the type reported on the operand stack must be T, and the emitted expression must have the shape of T's zero value (nil for slice/map/pointer/chan/func/interface kinds - an empty composite literal type-checks but is not nil). " +
+			"printed and re-checked: Go must accept it, `y` must get exactly type T, the type reported on the operand stack must be T, and the emitted expression must have the shape and value of T's zero value (nil for slice/map/pointer/chan/func/interface/unsafe.Pointer kinds - an empty composite literal type-checks but is not nil; for basic kinds the constant go/types computes for the emitted expression must be 0 / \"\" / false; a struct or array literal must have no non-zero element). " +
 			"Every scenario is repeated for `type Lz T` declared lazily (NewType now, body supplied by Config.LoadNamed on demand): the zero value is requested before anything else has loaded the type. non-trivial = scenario built and re-checked; distinct by (variant, type text)",
 		Assume: []string{"go/types on the emitted package", "run-time zero-ness (reflect.IsZero) is not executed in this tier: typing only"},
 		MinNT:  500,
